@@ -1082,30 +1082,37 @@ def load_corpus(pid):
     return out
 
 
-def shrink_case(pid, cfg, case, keep):
-    """greedy step removal while keep(ev, j) holds for the candidate (ev = eval_cases result of the
-    candidate list, j its index); one harness run + one coqc per round"""
+def shrink_case(pid, cfg, case, keep, max_rounds=12):
+    """Delta-debugging style shrinking: remove blocks of steps (half, quarter, ... single steps) while
+    keep(ev, j) holds for the candidate (ev = eval_cases result of the candidate list, j its index);
+    one harness run + one coqc per round."""
     cur = case
-    for _ in range(14):
+    size = max(1, len(cur["steps"]) // 2)
+    rounds = 0
+    while rounds < max_rounds and len(cur["steps"]) > 1:
+        n = len(cur["steps"])
+        size = min(size, n - 1) or 1
         cands = []
-        for i in range(len(cur["steps"])):
-            if len(cur["steps"]) <= 1:
-                break
+        for off in range(0, n, size):
             c = dict(cur)
-            c["steps"] = cur["steps"][:i] + cur["steps"][i + 1:]
+            c["steps"] = cur["steps"][:off] + cur["steps"][off + size:]
+            if not c["steps"]:
+                continue
             c["dump_at"] = list(range(len(c["steps"])))
             cands.append(c)
-        if not cands:
-            break
+        rounds += 1
         try:
             outs = run_impl(pid, cands, "shrink")
             ev = eval_cases(pid, cfg, cands, outs, name="Shrink")
         except (vlib.TieBroken, vlib.InfraError):
             break
         good = [j for j in range(len(cands)) if keep(ev, j)]
-        if not good:
+        if good:
+            cur = cands[good[0]]
+        elif size == 1:
             break
-        cur = cands[good[0]]
+        else:
+            size = max(1, size // 2)
     return cur
 
 
